@@ -239,6 +239,21 @@ CLAIMS = {
         "Channels compared as a name-keyed map. Known finding: numpy.round expressions are not exportable.",
         "DESIGN.md §3 C04",
     ),
+    "C18": (
+        "exploration",
+        "exhaustive program x device-pair enumeration (ProgX) with a differential snapshot oracle (strict) and the C01/C02 "
+        "predicates on the new device (non-strict)",
+        "161 programs (every history of <= 2 ops over a 12-op alphabet incl. EOM with drift correction, DMM, retarget, align, "
+        "phase changes; plus 4 long ones) x 75 ordered device pairs (base <-> 25 single-parameter variants of clock, min "
+        "duration, bandwidth, phase-jump time, retarget interval, fixed retarget time, EOM bandwidth / buffer / beams / absence, "
+        "amplitude / detuning / duration limits, reusability, Rydberg level, max sequence duration, DMM bottoms; base -> 25 "
+        "two-parameter variants; thorough: all 300 pairs of variants) x strict in {True, False} = 24.6k switches: strict either "
+        "raises or returns an identical timeline / EOM blocks / phase references; non-strict either raises or satisfies every "
+        "limit of the new device with a well-formed timeline; the original is never modified; switch_register to an equal, a "
+        "moved and a re-ordered register keeps the timeline.",
+        "Consecutive plain delays are merged before comparing strict switches (idle time may be partitioned differently).",
+        "DESIGN.md §3 C18",
+    ),
 }
 
 PENDING_REASON = "check not built yet in this round (design in DESIGN.md §3); nothing is claimed for it"
